@@ -2,6 +2,7 @@
 use crate::verif_sym::{any, assume, harness, vcover};
 
 /// RNG returning a constant word (extreme outputs: all zeros / all ones)
+#[derive(Clone)]
 struct ConstRng(u64);
 impl rand::RngCore for ConstRng {
     fn next_u32(&mut self) -> u32 { self.0 as u32 }
@@ -31,3 +32,41 @@ fn run_all_zero(k: usize, n: usize) {
 // all three phases and both boundaries with the all-zero RNG word: add never panics
 harness! { #[kani::unwind(12)] fn c18_reservoir_all_zero_rng_k1() { run_all_zero(1, 8); } }
 harness! { #[kani::unwind(16)] fn c18_reservoir_all_zero_rng_k2() { run_all_zero(2, 12); } }
+
+// Extend::extend is add() in a loop: a short iterator during fill-up leaves exactly its items (bounded: k = 3, n <= 2)
+harness! {
+    #[kani::unwind(6)]
+    fn c18_reservoir_extend_short_iter() {
+        let mut rs = ReservoirSampling::<usize, ConstRng>::new(3, ConstRng(0));
+        let n: usize = any();
+        assume(n <= 2);
+        let mut v: Vec<usize> = Vec::new();
+        let mut i = 0;
+        while i < n { v.push(i); i += 1; }
+        rs.extend(v);
+        assert!(rs.i() == n, "C18 i() equals the number of items fed through extend");
+        assert!(rs.reservoir().len() == n, "C18 exactly min(n, k) items after extend");
+        assert!(rs.is_empty() == (n == 0), "C18 is_empty iff nothing was added");
+        let mut a = 0;
+        while a < n { assert!(rs.reservoir()[a] == a, "C18 stream prefix in order"); a += 1; }
+        rs.add(7);
+        assert!(rs.reservoir().len() == n + 1 && rs.reservoir()[n] == 7, "C18 fill-up continues after a short extend");
+    }
+}
+
+// a clone taken during fill-up continues exactly like the original (C19 clone independence, C18 prefix)
+harness! {
+    #[kani::unwind(8)]
+    fn c19_reservoir_clone_mid_fillup() {
+        let mut a = ReservoirSampling::<usize, ConstRng>::new(4, ConstRng(0));
+        a.add(10);
+        a.add(11);
+        let mut b = a.clone();
+        a.add(12);
+        b.add(20);
+        b.add(21);
+        assert!(a.reservoir().len() == 3 && a.reservoir()[2] == 12 && a.i() == 3, "C19 the original is unaffected by the clone");
+        assert!(b.reservoir().len() == 4 && b.reservoir()[0] == 10 && b.reservoir()[1] == 11 && b.reservoir()[2] == 20 && b.reservoir()[3] == 21 && b.i() == 4,
+            "C18 C19 a clone taken during fill-up keeps filling up in order");
+    }
+}
